@@ -321,4 +321,42 @@ theorem initRaw_invEs (P : Params) (g : List Rat) : InvEs P (initRaw P g) (specI
       ⟨row0 P, by simp [initRaw, specInitRaw, specInit], by simp [row0, specInitRaw, specInit]⟩,
       by simp [specInitRaw, specInit]⟩
 
+/-! ## one more epoch after any run (audit round: per-epoch statements `C15_lr_epoch`, `C15_stop_epoch`) -/
+
+theorem run_append_ok {P : Params} : ∀ (ms : List (Rat × Rat)) (S S1 S2 : State) (os1 os2 : List Out)
+    (ms' : List (Rat × Rat)), run P S ms = .ok (S1, os1) → run P S1 ms' = .ok (S2, os2) →
+    run P S (ms ++ ms') = .ok (S2, os1 ++ os2) := by
+  intro ms
+  induction ms with
+  | nil =>
+    intro S S1 S2 os1 os2 ms' h1 h2
+    simp only [run, Except.ok.injEq, Prod.mk.injEq] at h1
+    obtain ⟨rfl, rfl⟩ := h1
+    simpa using h2
+  | cons m ms ih =>
+    intro S S1 S2 os1 os2 ms' h1 h2
+    obtain ⟨S', o, os, hs, hr, rfl⟩ := run_cons_inv h1
+    have := ih S' S1 S2 os os2 ms' hr h2
+    simpa using run_cons_ok hs this
+
+theorem specRun_snoc (P : Params) : ∀ (vs : List Rat) (T : SpecState) (v : Rat),
+    specRun P T (vs ++ [v]) = ((specStep P (specRun P T vs).1 v).1,
+      (specRun P T vs).2 ++ [(specStep P (specRun P T vs).1 v).2]) := by
+  intro vs
+  induction vs with
+  | nil => intro T v; rfl
+  | cons x xs ih =>
+    intro T v
+    rw [List.cons_append, specRun_cons, ih, specRun_cons]
+    rfl
+
+theorem liveRun_snoc (P : Params) : ∀ (vs : List Rat) (T : SpecState) (v : Rat),
+    liveRun P T (vs ++ [v]) ↔ (liveRun P T vs ∧ (specRun P T vs).1.es.fails < P.esPat) := by
+  intro vs
+  induction vs with
+  | nil => intro T v; simp [liveRun, specRun]
+  | cons x xs ih =>
+    intro T v
+    simp only [List.cons_append, liveRun, ih, specRun_cons, and_assoc]
+
 end PdtVerif.Controller
